@@ -18,9 +18,11 @@ from ..engine import (
     kwarg,
     norm,
     qualname_of,
+    slice_text,
     stmt_of,
     walk_no_nested,
 )
+from ..normal import nfunc
 from ..report import Report
 
 GRAPH = "semantiva/pipeline/graph_builder.py"
@@ -69,6 +71,138 @@ def identity_slice(repo: Repo) -> List[Tuple[str, str, ast.AST]]:
     return out
 
 
+# ---------------------------------------------------------------------------
+# D3a process-lifetime state
+# ---------------------------------------------------------------------------
+STATE_EXEMPT = ("semantiva/registry/", "semantiva/logger/", "semantiva/exceptions/")  # name -> class resolution tables, logging
+MUTABLE_CTORS = {"dict", "list", "set", "defaultdict", "OrderedDict", "WeakValueDictionary", "WeakKeyDictionary", "WeakSet", "deque", "Counter", "ChainMap", "bytearray"}
+
+
+def _is_container_expr(v: Optional[ast.AST]) -> bool:
+    if isinstance(v, (ast.Dict, ast.List, ast.Set, ast.DictComp, ast.ListComp, ast.SetComp)):
+        return True
+    return isinstance(v, ast.Call) and call_attr(v) in MUTABLE_CTORS
+
+
+def _bindings(body: List[ast.stmt]) -> Dict[str, ast.AST]:
+    out: Dict[str, ast.AST] = {}
+    for st in body:
+        if isinstance(st, (ast.If, ast.Try)):
+            for blk in (st.body, st.orelse, getattr(st, "finalbody", [])):
+                out.update(_bindings(blk))
+            continue
+        pairs = [(t, st.value) for t in st.targets] if isinstance(st, ast.Assign) else [(st.target, st.value)] if isinstance(st, ast.AnnAssign) else []
+        for t, v in pairs:
+            if isinstance(t, ast.Name) and _is_container_expr(v):
+                out[t.id] = st
+    return out
+
+
+def _local_names(fn: ast.AST) -> Set[str]:
+    """Names that are local to *fn* (parameters and stores without a global declaration), nested scopes excluded."""
+    a = fn.args
+    out = {x.arg for x in a.posonlyargs + a.args + a.kwonlyargs}
+    out |= {x.arg for x in (a.vararg, a.kwarg) if x is not None}
+    globs: Set[str] = set()
+    for n in walk_no_nested(fn):
+        if isinstance(n, (ast.Global, ast.Nonlocal)):
+            globs |= set(n.names)
+        elif isinstance(n, ast.Name) and isinstance(n.ctx, (ast.Store, ast.Del)):
+            out.add(n.id)
+        elif isinstance(n, ast.ExceptHandler) and n.name:
+            out.add(n.name)
+        elif isinstance(n, (ast.Import, ast.ImportFrom)):
+            out |= {(al.asname or al.name).split(".")[0] for al in n.names}
+    return out - globs
+
+
+def _cell_of(container: ast.AST) -> Optional[Tuple[str, ...]]:
+    """('name', X) / ('attr', receiver, X) for the object a mutated container expression is reached from."""
+    e = container
+    while True:
+        if isinstance(e, ast.Subscript):
+            e = e.value
+        elif isinstance(e, ast.Call) and isinstance(e.func, ast.Attribute) and e.func.attr in ("get", "setdefault"):
+            e = e.func.value
+        else:
+            break
+    if isinstance(e, ast.Name):
+        return ("name", e.id)
+    if isinstance(e, ast.Attribute) and isinstance(e.value, ast.Name):
+        return ("attr", e.value.id, e.attr)
+    return None
+
+
+def process_state_cells(mod) -> Dict[Tuple[str, ...], Tuple[ast.AST, str]]:
+    """Module-level names and class-level attributes of *mod* that hold process-lifetime mutable state:
+    bound to a container where the module / class body is executed, and written by some function at run time
+    (store, delete, mutator call, or rebinding under ``global``).  Value: (a write site, writer qualname)."""
+    from .c04 import mutation_targets
+
+    cached = getattr(mod, "_c04_state_cells", None)
+    if cached is not None:
+        return cached
+    names = _bindings(mod.tree.body)
+    class_attrs: Dict[str, Set[str]] = {}
+    for c in ast.walk(mod.tree):
+        if isinstance(c, ast.ClassDef):
+            for nm in _bindings(c.body):
+                class_attrs.setdefault(nm, set()).add(c.name)
+    cells: Dict[Tuple[str, ...], Tuple[ast.AST, str]] = {}
+    for f in ast.walk(mod.tree):
+        if not isinstance(f, FuncNode):
+            continue
+        local = _local_names(f)
+        for n in walk_no_nested(f):
+            if isinstance(n, ast.Global):
+                for nm in n.names:
+                    cells.setdefault(("name", nm), (n, qualname_of(f)))
+        muts = list(mutation_targets(f))
+        for c in calls_in(f):
+            if isinstance(c.func, ast.Attribute) and c.func.attr == "pop":
+                muts.append((stmt_of(c), c.func.value))
+        for st, container in muts:
+            cell = _cell_of(container)
+            if cell is None:
+                continue
+            if cell[0] == "name" and cell[1] in names and cell[1] not in local:
+                cells.setdefault(cell, (st, qualname_of(f)))
+            elif cell[0] == "attr" and cell[2] in class_attrs and (cell[1] in ("cls", "self") or cell[1] in class_attrs[cell[2]]):
+                cells.setdefault(("attr", cell[2]), (st, qualname_of(f)))
+    mod._c04_state_cells = cells  # type: ignore[attr-defined]
+    return cells
+
+
+def no_process_state(repo: Repo, R: Report, sl: List[Tuple[str, str, ast.AST]]) -> None:
+    """C04-D3a: nothing the identities are computed from lives longer than the call."""
+    r = R.rule("C04-D3a-no-process-state", "no function reachable from the identity slice reads a module-level name or class attribute that holds a container written at run time (memo, cache, counter): an identity is a function of the configuration, not of what was built or run earlier in the process; registries that resolve names to classes are exempt", 40)
+    roots = [(repo.module(rel), f) for rel, _qn, f in sl]
+    clo = repo.call_graph_closure(roots, stop=lambda m, n: m.rel.startswith(STATE_EXEMPT))
+    for m, f, _path in sorted(clo.values(), key=lambda t: (t[0].rel, getattr(t[1], "lineno", 0))):
+        if m.rel.startswith(STATE_EXEMPT):
+            continue
+        cells = process_state_cells(m)
+        qn = qualname_of(f)
+        bad: List[Tuple[ast.AST, str, Tuple[ast.AST, str]]] = []
+        if cells:
+            local = _local_names(f)
+            for n in walk_no_nested(f):
+                if isinstance(n, ast.Name) and ("name", n.id) in cells and n.id not in local:
+                    bad.append((n, n.id, cells[("name", n.id)]))
+                elif isinstance(n, ast.Attribute) and isinstance(n.value, ast.Name) and ("attr", n.attr) in cells and (n.value.id in ("cls", "self") or n.value.id[:1].isupper()):
+                    bad.append((n, f"{n.value.id}.{n.attr}", cells[("attr", n.attr)]))
+        if not bad:
+            R.ok(r, m.rel, qn, f"{qn}: no process-lifetime state read", "", getattr(f, "lineno", 0))
+            continue
+        seen: Set[str] = set()
+        for n, label, (site, writer) in bad:
+            if label in seen:
+                continue
+            seen.add(label)
+            st = stmt_of(n)
+            R.violation(r, m.rel, qn, norm(st)[:110], f"`{label}` is process-lifetime mutable state (written by `{norm(site)[:70]}` in {writer}) and is read while an identity is computed: what was built or run earlier in the interpreter decides the value that is hashed, a fresh process gives another identity", getattr(n, "lineno", 0))
+
+
 def run(repo: Repo, R: Report) -> None:
     # ------------------------------------------------------------------ D1 ambient inputs
     r_amb = R.rule("C04-D1-no-ambient-input", "no function of the identity slice reads a clock, random source, process/host/environment value, object address or salted hash; the run id (uuid4) never flows into an identity", 20)
@@ -95,6 +229,9 @@ def run(repo: Repo, R: Report) -> None:
             names = {x.id for a in c.args for x in ast.walk(a) if isinstance(x, ast.Name)}
             tainted = {"run_id", "run_token", "payload", "data", "context", "trace", "logger", "transport"} & names
             R.check(not tainted, r_amb, ORCH, "SemantivaOrchestrator.execute", norm(c)[:70], f"a volatile / per-run value ({sorted(tainted)}) is hashed into an identity", c.lineno)
+
+    # ------------------------------------------------------------------ D3a no process-lifetime state
+    no_process_state(repo, R, sl)
 
     # ------------------------------------------------------------------ D2 key-order insensitivity
     r_ord = R.rule("C04-D2-key-order-insensitive", "every value that reaches a hash comes from json.dumps(sort_keys=True) or from a normaliser that rebuilds dicts over sorted keys; no list inside a hashed structure inherits mapping or set order", 10)
@@ -140,7 +277,7 @@ def run(repo: Repo, R: Report) -> None:
                     R.check(prov in ("fixed", "sorted"), r_ord, SWEEP, qualname_of(pm), f"{k.value!r}: list(cls.{src_attr}) [{prov} order]",
                             f"a list hashed into the node semantic id inherits {prov} order: reordering the keys of the sweep's mapping changes config_id", v.lineno)
     cpc = repo.func(SEM, "compute_pipeline_config_id")
-    R.check(any(isinstance(v, ast.Call) and call_attr(v) == "sorted" for v in assigned_value(cpc, "ordered")), r_ord, SEM, "compute_pipeline_config_id", "pairs sorted before hashing", "config id depends on the order pairs were collected", cpc.lineno)
+    R.check(_param_sorted_before_use(repo, SEM, "compute_pipeline_config_id"), r_ord, SEM, "compute_pipeline_config_id", "pairs sorted before hashing", "config id depends on the order pairs were collected", cpc.lineno)
     crk = repo.func(BUILDER, "_collect_required_context_keys")
     rets = [n for n in walk_no_nested(crk) if isinstance(n, ast.Return) and n.value is not None and not (isinstance(n.value, ast.List) and not n.value.elts)]
     R.check(bool(rets) and all(isinstance(r.value, ast.Call) and call_attr(r.value) == "sorted" for r in rets), r_ord, BUILDER, "_collect_required_context_keys", "required context keys returned sorted", "the required-key list of the inspection payload follows set iteration order (hash-seed dependent)", crk.lineno)
@@ -163,12 +300,8 @@ def run(repo: Repo, R: Report) -> None:
                 t = repo.resolve_call(mod, c)
                 ok = ok and len(t) == 1 and t[0][0].rel == home
             R.check(ok, r_same, rel, qn, f"{fname} -> {home}", f"{qn} does not compute this id with {home}:{fname} (a private re-implementation or a missing call)", f.lineno)
-        pairs = [c for c in calls_in(f) if call_attr(c) == "append" and dotted_name(c.func.value) == "semantic_pairs"]
-        ok = len(pairs) == 1 and isinstance(pairs[0].args[0], ast.Tuple) and len(pairs[0].args[0].elts) == 2
-        if ok:
-            a, b = pairs[0].args[0].elts
-            ok = "uuid" in ast.unparse(a) and "semantic_id" in ast.unparse(b)
-        R.check(ok, r_same, rel, qn, "semantic_pairs.append((node_uuid, node_semantic_id))", "the pairs hashed into config_id are not (node uuid, node semantic id)", f.lineno)
+        ok, why = _config_id_pairs(repo, rel, qn)
+        R.check(ok, r_same, rel, qn, "semantic_pairs.append((node_uuid, node_semantic_id))", f"the pairs hashed into config_id are not (node uuid, node semantic id): {why}", f.lineno)
     for prefix, (home_rel, home_fn) in PREFIX_OWNERS.items():
         owners = []
         for mod, qn, f in repo.all_functions():
@@ -195,6 +328,107 @@ def run(repo: Repo, R: Report) -> None:
         c05.sweep_metadata(repo, R)
     finally:
         R.rule_prefix = ""
+
+
+ELEMENTWISE = {"list", "tuple", "set", "frozenset", "iter"}
+
+
+def _elementwise_top(x: ast.AST, stop: ast.AST) -> ast.AST:
+    """Climb from *x* through wrappers that keep the multiset of elements (list(x), tuple(x), a comprehension
+    iterating x): the outermost such expression."""
+    cur = x
+    while True:
+        par = getattr(cur, "_parent", None)
+        if par is None or par is stop:
+            return cur
+        if isinstance(par, ast.Call) and isinstance(par.func, ast.Name) and par.func.id in ELEMENTWISE and par.args and par.args[0] is cur and len(par.args) == 1:
+            cur = par
+            continue
+        if isinstance(par, ast.Starred) and isinstance(getattr(par, "_parent", None), (ast.List, ast.Tuple)) and len(par._parent.elts) == 1:  # [*x]
+            cur = par._parent
+            continue
+        if isinstance(par, ast.comprehension) and par.iter is cur and not par.ifs:
+            owner = getattr(par, "_parent", None)
+            if isinstance(owner, (ast.ListComp, ast.GeneratorExp, ast.SetComp)) and len(owner.generators) == 1:
+                cur = owner
+                continue
+        return cur
+
+
+def _param_sorted_before_use(repo: Repo, rel: str, qualname: str) -> bool:
+    """Every read of the function's first parameter is the operand of ``sorted(...)`` - or of a copy that an
+    unconditional ``<copy>.sort(...)`` orders before anything else reads it: the order in which the caller
+    collected the elements cannot reach what is hashed.  Decided on the normal form, by role (no local names)."""
+    fn = nfunc(repo, rel, qualname, copyprop="all", keep=("_sha256_json",))
+    if not fn.args.args:
+        return False
+    p = fn.args.args[0].arg
+    loads = [x for x in ast.walk(fn) if isinstance(x, ast.Name) and x.id == p and isinstance(x.ctx, ast.Load)]
+    if not loads:
+        return False
+    for x in loads:
+        top = _elementwise_top(x, fn)
+        par = getattr(top, "_parent", None)
+        if isinstance(par, ast.Call) and isinstance(par.func, ast.Name) and par.func.id == "sorted" and par.args and par.args[0] is top:
+            continue
+        # <copy> = list(param); <copy>.sort(...)  as consecutive top-level statements of the body
+        if top is not x and isinstance(par, (ast.Assign, ast.AnnAssign)) and par in fn.body:
+            tgt = par.targets[0] if isinstance(par, ast.Assign) and len(par.targets) == 1 else getattr(par, "target", None)
+            i = fn.body.index(par)
+            nxt = fn.body[i + 1] if i + 1 < len(fn.body) else None
+            if (isinstance(tgt, ast.Name) and isinstance(nxt, ast.Expr) and isinstance(nxt.value, ast.Call) and isinstance(nxt.value.func, ast.Attribute)
+                    and nxt.value.func.attr == "sort" and isinstance(nxt.value.func.value, ast.Name) and nxt.value.func.value.id == tgt.id):
+                continue
+        return False
+    return True
+
+
+def _config_id_pairs(repo: Repo, rel: str, qualname: str) -> Tuple[bool, str]:
+    """The list handed to compute_pipeline_config_id receives exactly (canonical node uuid, node semantic id) pairs.
+
+    Found by role: <P> is whatever is passed to compute_pipeline_config_id; its elements are the tuples appended to
+    <P> (or the element of the comprehension that builds it); the first component is sliced back to a read of the
+    canonical node field 'node_uuid', the second one to compute_node_semantic_id(...) / a constant marker."""
+    fn = nfunc(repo, rel, qualname)
+    calls = [c for c in calls_in(fn) if call_attr(c) == "compute_pipeline_config_id"]
+    if len(calls) != 1 or not calls[0].args:
+        return False, "no single compute_pipeline_config_id(<pairs>) call"
+    arg = calls[0].args[0]
+    elems: List[ast.AST] = []
+    srcs = [arg]
+    if isinstance(arg, ast.Name):
+        srcs = list(assigned_value(fn, arg.id))
+        for c in calls_in(fn):
+            if call_attr(c) == "append" and isinstance(c.func, ast.Attribute) and isinstance(c.func.value, ast.Name) and c.func.value.id == arg.id and c.args:
+                elems.append(c.args[0])
+            elif call_attr(c) in ("extend", "insert", "__iadd__") and isinstance(c.func, ast.Attribute) and isinstance(c.func.value, ast.Name) and c.func.value.id == arg.id:
+                return False, f"`{norm(c)[:60]}` adds elements of unknown shape"
+    for v in srcs:
+        if isinstance(v, (ast.ListComp, ast.GeneratorExp)):
+            elems.append(v.elt)
+        elif isinstance(v, ast.List):
+            elems.extend(v.elts)
+        elif isinstance(v, ast.Call) and call_attr(v) == "list" and not v.args:
+            pass
+        else:
+            return False, f"pairs built by `{norm(v)[:60]}`"
+    if not elems:
+        return False, "nothing is appended to the pairs"
+    for e in elems:
+        if not (isinstance(e, ast.Tuple) and len(e.elts) == 2):
+            return False, f"element `{norm(e)[:60]}` is not a 2-tuple"
+        a, b = e.elts
+        if "'node_uuid'" not in slice_text(fn, a, 3):
+            return False, f"first component `{norm(a)[:50]}` is not read from the canonical node's 'node_uuid'"
+        vals = assigned_value(fn, b.id) if isinstance(b, ast.Name) else [b]
+        flat: List[ast.AST] = []
+        for v in vals:
+            flat.extend([v.body, v.orelse] if isinstance(v, ast.IfExp) else [v])
+        has_id = any(isinstance(v, ast.Call) and call_attr(v) == "compute_node_semantic_id" for v in flat)
+        rest_ok = all((isinstance(v, ast.Call) and call_attr(v) == "compute_node_semantic_id") or (isinstance(v, ast.Constant) and isinstance(v.value, str)) for v in flat)
+        if not (has_id and rest_ok):
+            return False, f"second component `{norm(b)[:50]}` is not compute_node_semantic_id(...) or a constant marker"
+    return True, ""
 
 
 def _dumps_feeding(f: ast.AST, arg: Optional[ast.AST], depth: int = 0) -> List[ast.Call]:
